@@ -14,7 +14,7 @@ LAYOUT['_d'] = [('id', 'INTEGER'), ('a', 'INTEGER')]
 
 
 def random_state(rng, empty_prob=0.1):
-    """{table: [rows]} with unique ids, NULLs and duplicates in the other columns."""
+    """{table: [rows]} with NULLs, duplicates in the non-id columns and, now and then, a whole row repeated."""
     st = {}
     for t, cols in SCHEMA.items():
         n = 0 if rng.random() < empty_prob else rng.randint(1, 6)
@@ -31,6 +31,9 @@ def random_state(rng, empty_prob=0.1):
                 else:
                     row.append(rng.choice(TEXTS))
             rows.append(tuple(row))
+        # a table need not have a key: now and then one whole row occurs twice (or three times)
+        if rows and rng.random() < 0.25:
+            rows += [rows[rng.randrange(len(rows))]] * rng.choice([1, 1, 2])
         st[t] = rows
     return st
 
@@ -227,7 +230,8 @@ class Gen:
             scope = [('p', '_d')]
             njoin = 0
         grouped = r.random() < 0.2
-        distinct = (not grouped) and r.random() < 0.12
+        # (DISTINCT together with GROUP BY matters when the select list leaves the grouping key out: two groups may give the same row)
+        distinct = r.random() < (0.3 if grouped else 0.12)
         targets = []
         if grouped:
             self.features.add('group-by')
@@ -237,6 +241,10 @@ class Gen:
             if r.random() < 0.3:
                 targets.append(f'count(DISTINCT {galias}.id) AS cd')
                 self.features.add('count-distinct')
+            keyless = distinct and r.random() < 0.6
+            if keyless:
+                targets = [t_ for t_ in targets[1:] if not t_.startswith(('sum(', 'min(', 'max('))] or ['count(*) AS n']
+                self.features.add('distinct-group-by-without-key')
         else:
             for i in range(r.randint(1, 3)):
                 k = r.random()
@@ -263,7 +271,7 @@ class Gen:
             if r.random() < 0.4:
                 self.features.add('having')
                 s += f' HAVING count(*) {r.choice([">", ">=", "="])} {r.choice([1, 2])}'
-            if with_order and r.random() < 0.6:
+            if with_order and r.random() < 0.6 and not keyless:
                 d = r.choice(['', ' ASC', ' DESC'])
                 nl = r.choice(['', ' NULLS FIRST', ' NULLS LAST'])
                 self.features.add('order' + d + nl)
@@ -304,9 +312,38 @@ class Gen:
                 text = text2
         return text, ordered
 
+    def unaliased_query(self):
+        """Tables read without an alias (columns qualified by the table name), comma joins, and nested queries that read - by comma
+        join - a table of the same name as the enclosing query does: each FROM list is the query's own."""
+        r = self.r
+        a, b = r.choice([('t1', 't2'), ('t2', 't1')])
+        self.features.add('unaliased-tables')
+        shape = r.choice(['in-comma', 'scalar-comma', 'exists-comma', 'comma-join', 'join', 'comma3', 'twice', 'correlated', 'in-comma-other'])
+        self.features.add('unaliased:' + shape)
+        w = r.choice(['', f' AND {b}.id > 1', f' AND {b}.a IS NOT NULL'])
+        if shape == 'in-comma':
+            return f'SELECT {a}.id AS id, {a}.a AS a FROM {a} WHERE {a}.a IN (SELECT {b}.a FROM {b}, {a} WHERE {b}.id = {a}.id{w})', False
+        if shape == 'in-comma-other':
+            return f'SELECT {a}.id AS id FROM {a}, t3 WHERE {a}.id = t3.id AND {a}.a IN (SELECT {b}.a FROM {b}, t3 WHERE {b}.id = t3.x{w})', False
+        if shape == 'scalar-comma':
+            return f'SELECT {a}.id AS id, (SELECT count(*) FROM {b}, {a} WHERE {b}.id = {a}.id{w}) AS n FROM {a}', False
+        if shape == 'exists-comma':
+            return f'SELECT {a}.id AS id FROM {a} WHERE {r.choice(["", "NOT "])}EXISTS (SELECT 1 FROM {b}, {a} WHERE {b}.a = {a}.a AND {b}.id > 2)', False
+        if shape == 'comma-join':
+            return f'SELECT {a}.id AS id1, {b}.id AS id2 FROM {a}, {b} WHERE {a}.a = {b}.a{w}', False
+        if shape == 'join':
+            return f'SELECT {a}.id AS id1, {b}.a AS a FROM {a} {r.choice(["JOIN", "LEFT JOIN"])} {b} ON {a}.id = {b}.id WHERE {a}.id > 0', False
+        if shape == 'comma3':
+            return f'SELECT {a}.id AS id1, {b}.id AS id2, t3.y AS y FROM {a}, {b}, t3 WHERE {a}.id = {b}.id AND t3.id = {a}.id', False
+        if shape == 'twice':
+            return f'SELECT {a}.id AS id1, x.id AS id2 FROM {a}, {a} AS x WHERE {a}.id = x.a', False
+        return f'SELECT {a}.id AS id FROM {a} WHERE {a}.a = (SELECT max({b}.a) FROM {b} WHERE {b}.id = {a}.id)', False
+
     def _query(self):
         r = self.r
         k = r.random()
+        if self.qual('t1') == 't1' and r.random() < 0.06:
+            return self.unaliased_query()
         if k < 0.7:
             return self.simple_select()
         if k < 0.85:
